@@ -966,11 +966,12 @@ class Angle(object):
         30.0
         """
 
-        if isinstance(b, (int, float)):
-            b = Angle(b)
+        # A number is taken as it is (like '__mod__' does with its divisor),
+        # not reduced to the [0:360) range first: 370 % Angle(11) is 7, not 10
+        bdeg = float(b) if isinstance(b, (int, float)) else b._deg
         # Negative values will be treated as if they were positive
-        sign = 1.0 if b._deg >= 0.0 else -1.0
-        return Angle(sign * (abs(b._deg) % self._deg))
+        sign = 1.0 if bdeg >= 0.0 else -1.0
+        return Angle(sign * (abs(bdeg) % self._deg))
 
     def __radd__(self, b):
         """This method defines the addition between Angles by the right
